@@ -586,15 +586,22 @@ def call_builtin(ex, name, args, kwargs, line, node=None):
     if name == 'type':
         if isinstance(a0, Obj):
             return ClassRef(a0.cls)
+        if isinstance(a0, (list, dict, tuple, str, set)):
+            return Builtin(type(a0).__name__)
+        if type(a0).__name__ == 'DataFrameVal':
+            return Builtin('pandas.DataFrame')
         return Builtin('type:' + type(a0).__name__)
     if name == 'hasattr':
         o, attr = args
         if isinstance(o, Obj):
+            if o.cls is not None and getattr(o.cls.module, 'is_pyx', False):
+                # cdef attributes (not declared public) are invisible to Python-level attribute lookup; def methods are visible
+                m = ex.program.find_method(o.cls, attr, with_body=False)
+                return bool(m is not None and m.kind in ('def', 'cpdef', 'py'))
             if attr in o.fields:
                 return True
-            if o.cls is not None:
-                if attr in ex.program.all_fields(o.cls) or ex.program.find_method(o.cls, attr, with_body=False):
-                    return True
+            if o.cls is not None and ex.program.find_method(o.cls, attr, with_body=False):
+                return True
             return False
         raise Unsupported('hasattr on %r' % type(o).__name__)
     if name == 'getattr':
@@ -757,6 +764,32 @@ def call_numpy(ex, fn, args, kwargs, line):
         return arrays.pointwise(ex, tm.add(n1, to_term(b.shape[0])), 'concat', elem,
                                 lambda j: tm.ite(tm.lt(j, n1), tm.to_real(tm.select(a.term, j)) if elem == REAL else tm.select(a.term, j),
                                                  tm.to_real(tm.select(b.term, tm.sub(j, n1))) if elem == REAL else tm.select(b.term, tm.sub(j, n1))))
+    if fn == 'transpose':
+        from . import reshape as _rs
+        if isinstance(a0, Arr) and a0.ndim == 2:
+            r, cc = [ex.concrete_int(x) for x in a0.shape]
+            items = [tm.select(tm.select(a0.term, tm.mk_int(i)), tm.mk_int(j)) for j in range(cc) for i in range(r)]
+            return _rs.build(ex, items, [cc, r], a0.elem, 'transposed')
+        if isinstance(a0, Arr) and a0.ndim == 1:
+            return a0
+        raise Unsupported('np.transpose of rank %r (line %s)' % (getattr(a0, 'ndim', None), line))
+    if fn == 'reshape':
+        from . import reshape as _rs
+        return _rs.reshape(ex, args[0], [args[1]], kwargs, line)
+    if fn == 'shape':
+        if isinstance(a0, Arr):
+            return tuple(a0.shape)
+        if isinstance(a0, (list, tuple)):
+            def shp(x):
+                if isinstance(x, Arr):
+                    return tuple(x.shape)
+                if isinstance(x, (list, tuple)) and x:
+                    return (len(x),) + shp(x[0])
+                if isinstance(x, (list, tuple)):
+                    return (0,)
+                return ()
+            return shp(a0)
+        return ()
     if fn == 'isscalar':
         return is_num(a0)
     if fn == 'prod':
@@ -820,6 +853,12 @@ def array_from_list(ex, v, kwargs, line):
                 a.objs = list(v)
                 return a
             raise Unsupported('np.array of mixed content (line %s)' % line)
+        if all(r.ndim == 2 for r in rows):
+            from . import reshape as _rs
+            items = []
+            for r in rows:
+                items.extend(_rs.flat_items(ex, r))
+            return _rs.build(ex, items, [len(rows)] + [ex.concrete_int(x) for x in rows[0].shape], REAL, 'arr3')
         if any(r.ndim != 1 for r in rows):
             raise Unsupported('np.array of rank>1 rows (line %s)' % line)
         n0 = rows[0].shape[0]
